@@ -32,6 +32,14 @@
 (*                     (cached.go as found, hypothesis H-C18-1): with only *)
 (*                     cache_capacity_nonlive set the non-live cache is an *)
 (*                     unbounded map -> Bounded is violated                *)
+(* KindRule = "unread": the non-live capacity written in the station's     *)
+(*                     configuration FILE never reaches the tester (the    *)
+(*                     key is not the one the Config struct decodes): an   *)
+(*                     unbounded map whatever is configured -> Bounded is  *)
+(*                     violated.  The configuration of Init is the TOML    *)
+(*                     file: the driver writes the four documented keys of *)
+(*                     the shipped app_config.toml and decodes the text as *)
+(*                     lib.ParseConfig does, it does not fill the struct.  *)
 (* Bug switches further deliberately broken instances (non-vacuity of the  *)
 (* invariants): "evict_noop" (eviction callback does not remove the entry  *)
 (* from the verdict map), "age_flip" (age test inverted), "wrong_cache"    *)
@@ -51,7 +59,7 @@ CONSTANTS Addrs,        \* set of strings
           LiveLife, NonLiveLife, \* lifetimes in ticks (> 0)
           MaxAge,       \* age cap (>= both lifetimes)
           Steps,        \* admissible time advances
-          KindRule,     \* "own" | "live"
+          KindRule,     \* "own" | "live" | "unread"
           Bug           \* "none" | "evict_noop" | "age_flip" | "wrong_cache"
 
 VARIABLES cfg,      \* configuration + cache kinds, fixed by Init
@@ -72,6 +80,7 @@ LKinds(ll, lc) == IF ~ll THEN {"off"} ELSE IF lc # 0 THEN {"lru"} ELSE {"map", "
 NKinds(lc, nl, nc) ==
   IF ~nl THEN {"off"}
   ELSE IF KindRule = "own" THEN (IF nc # 0 THEN {"lru"} ELSE {"map", "lru"})
+  ELSE IF KindRule = "unread" THEN {"map"}            \* the configured value never reaches the tester
   ELSE (IF lc # 0 THEN {"lru"} ELSE {"map"})          \* as found: gated by the live capacity
 
 Configs == {c \in [ll : BOOLEAN, lc : Caps, lk : {"off", "map", "lru"},
